@@ -1,1057 +1,14 @@
-(** DD/TddProofs.v — proofs about the model DD/Tdd.v (property C11). *)
-From Coq Require Import Bool Arith List Lia NArith ZArith.
-From OxiVerif Require Import DD.Tdd.
-Import ListNotations.
-
-(* ------------------------------------------------------------------------ *)
-(** * 1. The fixed tables *)
-
-Lemma tri_eqb_eq : forall a b, tri_eqb a b = true <-> a = b.
-Proof. intros [] []; simpl; split; congruence. Qed.
-
-Lemma tri_eqb_refl : forall a, tri_eqb a a = true.
-Proof. intros []; reflexivity. Qed.
-
-Lemma ite3_is_text : forall a b c, ite3 a b c = ite3_text a b c.
-Proof. intros [] [] []; reflexivity. Qed.
-
-(** Kleene's strong tables as min / max / 1-x over F < U < T. *)
-Definition rank (a : tri) : nat := match a with TF => 0 | TU => 1 | TT => 2 end.
-
-Lemma k_not_rank : forall a, rank (k_not a) = 2 - rank a.
-Proof. intros []; reflexivity. Qed.
-Lemma k_and_rank : forall a b, rank (k_and a b) = Nat.min (rank a) (rank b).
-Proof. intros [] []; reflexivity. Qed.
-Lemma k_or_rank : forall a b, rank (k_or a b) = Nat.max (rank a) (rank b).
-Proof. intros [] []; reflexivity. Qed.
-(** Lukasiewicz: a -> b = min(1, 1 - a + b), a <-> b = 1 - |a - b| (scaled by 2). *)
-Lemma l_imp_rank : forall a b, rank (l_imp a b) = Nat.min 2 (2 - rank a + rank b).
-Proof. intros [] []; reflexivity. Qed.
-Lemma l_equiv_rank : forall a b,
-  rank (l_equiv a b) = 2 - (Nat.max (rank a) (rank b) - Nat.min (rank a) (rank b)).
-Proof. intros [] []; reflexivity. Qed.
-
-Lemma table_idem_cases : forall op x,
-  table op x x =
-  match op with
-  | And | Or => x
-  | Nand | Nor => k_not x
-  | Xor | ImpStrict => TF
-  | Equiv | Imp => TT
-  end.
-Proof. intros [] []; reflexivity. Qed.
-
-Definition commutative (op : binop) : bool :=
-  match op with Imp | ImpStrict => false | _ => true end.
-
-Lemma table_comm : forall op x y, commutative op = true -> table op x y = table op y x.
-Proof. intros [] [] []; simpl; intros; try reflexivity; discriminate. Qed.
-
-(** The default [ite_edge] of oxidd-core is a different function: it is not
-    what the property calls ite (it is unreachable through TDD handles). *)
-Lemma ite_default3_refuted : exists a b c, ite_default3 a b c <> ite3 a b c.
-Proof. exists TU, TT, TT. discriminate. Qed.
-
-(* ------------------------------------------------------------------------ *)
-(** * 2. Basic facts about diagrams *)
-
-Lemma tdd_eqb_eq : forall f g, tdd_eqb f g = true <-> f = g.
-Proof.
-  induction f as [v|l t IHt u IHu e IHe]; intros [w|l' t' u' e']; simpl;
-    try (split; [discriminate|congruence]).
-  - rewrite tri_eqb_eq. split; congruence.
-  - rewrite !andb_true_iff, Nat.eqb_eq, IHt, IHu, IHe.
-    split; [intros [[[-> ->] ->] ->]; reflexivity|intros H; inversion H; auto].
-Qed.
-
-Lemma tdd_eqb_refl : forall f, tdd_eqb f f = true.
-Proof. intros f. apply tdd_eqb_eq. reflexivity. Qed.
-
-Lemma tdd_eqb_neq : forall f g, tdd_eqb f g = false <-> f <> g.
-Proof.
-  intros f g. destruct (tdd_eqb f g) eqn:E.
-  - apply tdd_eqb_eq in E. split; [discriminate|congruence].
-  - split; [|reflexivity]. intros _ H. apply tdd_eqb_eq in H. congruence.
-Qed.
-
-Lemma is_leaf_true : forall v f, is_leaf v f = true <-> f = Leaf v.
-Proof.
-  intros v [w|l t u e]; simpl.
-  - rewrite tri_eqb_eq. split; congruence.
-  - split; discriminate.
-Qed.
-
-Lemma sem_node : forall l t u e a,
-  sem (Node l t u e) a = match a l with TT => sem t a | TU => sem u a | TF => sem e a end.
-Proof. reflexivity. Qed.
-
-(** The reduction rule does not change the denoted function. *)
-Lemma mk_sem : forall l t u e a, sem (mk l t u e) a = sem (Node l t u e) a.
-Proof.
-  intros. unfold mk. destruct (tdd_eqb t u && tdd_eqb u e) eqn:E; [|reflexivity].
-  apply andb_true_iff in E. destruct E as [E1 E2].
-  apply tdd_eqb_eq in E1. apply tdd_eqb_eq in E2. subst. simpl. destruct (a l); reflexivity.
-Qed.
-
-(** Ternary Shannon expansion w.r.t. an arbitrary level [lv]. *)
-Lemma sem_cof : forall lv f a, sem f a = sem (cof lv (a lv) f) a.
-Proof.
-  intros lv [v|l t u e] a; simpl; [reflexivity|].
-  destruct (Nat.eqb_spec l lv) as [->|]; [|reflexivity].
-  destruct (a lv); reflexivity.
-Qed.
-
-(** ** Orderedness and reducedness *)
-
-(** Levels strictly increase along every path and are all [>= n]. *)
-Fixpoint ordered_from (n : nat) (f : tdd) : Prop :=
-  match f with
-  | Leaf _ => True
-  | Node l t u e => n <= l /\ ordered_from (S l) t /\ ordered_from (S l) u /\ ordered_from (S l) e
-  end.
-
-Definition ordered (f : tdd) : Prop := ordered_from 0 f.
-
-(** No node with three equal children. *)
-Fixpoint reduced (f : tdd) : Prop :=
-  match f with
-  | Leaf _ => True
-  | Node _ t u e => ~ (t = u /\ u = e) /\ reduced t /\ reduced u /\ reduced e
-  end.
-
-(** All levels are below [n] (the diagram lives in a manager with [n] levels). *)
-Fixpoint below (n : nat) (f : tdd) : Prop :=
-  match f with
-  | Leaf _ => True
-  | Node l t u e => l < n /\ below n t /\ below n u /\ below n e
-  end.
-
-Lemma ordered_from_mono : forall f n m, m <= n -> ordered_from n f -> ordered_from m f.
-Proof. intros [v|l t u e] n m Hle; simpl; [auto|]. intros (H1 & H2). split; [lia|exact H2]. Qed.
-
-Lemma ordered_from_level : forall f n k,
-  ordered_from n f -> (forall l, level f = Some l -> k <= l) -> ordered_from k f.
-Proof.
-  intros [v|l t u e] n k; simpl; [auto|]. intros (H1 & H2) Hk. split; [|exact H2].
-  apply Hk. reflexivity.
-Qed.
-
-Lemma mk_ordered : forall n l t u e, n <= l ->
-  ordered_from (S l) t -> ordered_from (S l) u -> ordered_from (S l) e ->
-  ordered_from n (mk l t u e).
-Proof.
-  intros. unfold mk. destruct (tdd_eqb t u && tdd_eqb u e).
-  - apply ordered_from_mono with (S l); [lia|assumption].
-  - simpl. auto.
-Qed.
-
-Lemma mk_reduced : forall l t u e, reduced t -> reduced u -> reduced e -> reduced (mk l t u e).
-Proof.
-  intros. unfold mk. destruct (tdd_eqb t u && tdd_eqb u e) eqn:E; [assumption|].
-  simpl. repeat split; try assumption. intros [E1 E2].
-  apply tdd_eqb_eq in E1. apply tdd_eqb_eq in E2. rewrite E1, E2 in E. discriminate.
-Qed.
-
-Lemma mk_below : forall n l t u e, l < n -> below n t -> below n u -> below n e -> below n (mk l t u e).
-Proof.
-  intros. unfold mk. destruct (tdd_eqb t u && tdd_eqb u e); [assumption|]. simpl. auto.
-Qed.
-
-Lemma cof_ordered : forall lv k f n,
-  ordered_from n f -> (forall l, level f = Some l -> lv <= l) -> ordered_from (S lv) (cof lv k f).
-Proof.
-  intros lv k [v|l t u e] n; simpl; [auto|]. intros (H1 & Ht & Hu & He) Hl.
-  specialize (Hl l eq_refl).
-  destruct (Nat.eqb_spec l lv) as [->|Hne].
-  - destruct k; assumption.
-  - simpl. split; [lia|auto].
-Qed.
-
-Lemma cof_reduced : forall lv k f, reduced f -> reduced (cof lv k f).
-Proof.
-  intros lv k [v|l t u e]; simpl; [auto|]. intros (H0 & Ht & Hu & He).
-  destruct (Nat.eqb l lv); [destruct k; assumption|]. simpl. auto.
-Qed.
-
-Lemma cof_below : forall lv k f n, below n f -> below n (cof lv k f).
-Proof.
-  intros lv k [v|l t u e] n; simpl; [auto|]. intros (H0 & Ht & Hu & He).
-  destruct (Nat.eqb l lv); [destruct k; assumption|]. simpl. auto.
-Qed.
-
-Lemma cof_height_le : forall lv k f, height (cof lv k f) <= height f.
-Proof.
-  intros lv k [v|l t u e]; simpl; [lia|].
-  destruct (Nat.eqb l lv); [destruct k; lia|simpl; lia].
-Qed.
-
-Lemma cof_height_lt : forall lv k f, level f = Some lv -> height (cof lv k f) < height f.
-Proof.
-  intros lv k [v|l t u e]; simpl; [discriminate|]. intros [= ->].
-  rewrite Nat.eqb_refl. destruct k; lia.
-Qed.
-
-(** The function of an ordered diagram does not depend on levels above it. *)
-Lemma sem_indep : forall f n a l v, ordered_from n f -> l < n -> sem f (upd a l v) = sem f a.
-Proof.
-  induction f as [w|l0 t IHt u IHu e IHe]; intros n a l v Ho Hl; [reflexivity|].
-  simpl in Ho. destruct Ho as (H1 & Ht & Hu & He).
-  rewrite !sem_node. unfold upd at 1. destruct (Nat.eqb_spec l0 l); [lia|].
-  rewrite (IHt (S l0)), (IHu (S l0)), (IHe (S l0)) by (assumption || lia). reflexivity.
-Qed.
-
-Lemma upd_same : forall a l v, upd a l v l = v.
-Proof. intros. unfold upd. rewrite Nat.eqb_refl. reflexivity. Qed.
-
-Lemma upd_other : forall a l v x, x <> l -> upd a l v x = a x.
-Proof. intros. unfold upd. destruct (Nat.eqb_spec x l); congruence. Qed.
-
-(** ** Canonicity: ordered + reduced diagrams of the same function are equal,
-    hence handle equality decides equality of functions. *)
-Lemma canon_aux : forall k f g, height f + height g <= k ->
-  ordered f -> reduced f -> ordered g -> reduced g ->
-  (forall a, sem f a = sem g a) -> f = g.
-Proof.
-  unfold ordered.
-  induction k as [k IH] using lt_wf_ind. intros f g Hk Of Rf Og Rg Heq.
-  (* a node whose children all denote the function of [x] (of smaller height) is not reduced *)
-  assert (Hred : forall l t u e x, ordered_from 0 (Node l t u e) -> reduced (Node l t u e) ->
-             ordered_from 0 x -> reduced x ->
-             height (Node l t u e) + height x <= k ->
-             (forall a v, sem x (upd a l v) = sem x a) ->
-             (forall a, sem (Node l t u e) a = sem x a) -> False).
-  { intros l t u e x (_ & Ot & Ou & Oe) (Hne & Rt & Ru & Re) Ox Rx Hh Hind Hs.
-    simpl in Hh.
-    assert (forall c v, (c = t /\ v = TT) \/ (c = u /\ v = TU) \/ (c = e /\ v = TF) -> c = x) as Hc.
-    { intros c v Hcv.
-      assert (Oc : ordered_from (S l) c) by (destruct Hcv as [[-> _]|[[-> _]|[-> _]]]; assumption).
-      assert (Rc : reduced c) by (destruct Hcv as [[-> _]|[[-> _]|[-> _]]]; assumption).
-      assert (Hc : height c <= Nat.max (height t) (Nat.max (height u) (height e)))
-        by (destruct Hcv as [[-> _]|[[-> _]|[-> _]]]; lia).
-      apply (IH (height c + height x)); try assumption; try lia.
-      - apply ordered_from_mono with (S l); [lia|assumption].
-      - intros a. rewrite <- (sem_indep c (S l) a l v) by (assumption || lia).
-        rewrite <- (Hind a v). rewrite <- Hs. rewrite sem_node, upd_same.
-        destruct Hcv as [[-> ->]|[[-> ->]|[-> ->]]]; reflexivity. }
-    apply Hne. rewrite (Hc t TT), (Hc u TU), (Hc e TF); auto. }
-  destruct f as [v|l t u e], g as [w|l' t' u' e'].
-  - specialize (Heq (fun _ => TF)). simpl in Heq. congruence.
-  - exfalso. apply (Hred l' t' u' e' (Leaf v)); auto; simpl in *; lia.
-  - exfalso. apply (Hred l t u e (Leaf w)); auto.
-  - destruct (lt_eq_lt_dec l l') as [[Hlt| ->]|Hgt].
-    + exfalso. apply (Hred l t u e (Node l' t' u' e')); auto.
-      intros a v. apply sem_indep with l'; [|assumption].
-      destruct Og as (_ & Og). simpl. split; [lia|exact Og].
-    + destruct Of as (_ & Ot & Ou & Oe). destruct Og as (_ & Ot' & Ou' & Oe').
-      destruct Rf as (_ & Rt & Ru & Re). destruct Rg as (_ & Rt' & Ru' & Re').
-      simpl in Hk.
-      assert (forall c c' v, ordered_from (S l') c -> ordered_from (S l') c' -> reduced c -> reduced c' ->
-                height c + height c' < k ->
-                (forall a, sem c a = sem (Node l' t u e) (upd a l' v)) ->
-                (forall a, sem c' a = sem (Node l' t' u' e') (upd a l' v)) -> c = c') as Hc.
-      { intros c c' v Oc Oc' Rc Rc' Hh Hs Hs'.
-        apply (IH (height c + height c')); try assumption; try lia.
-        - apply ordered_from_mono with (S l'); [lia|assumption].
-        - apply ordered_from_mono with (S l'); [lia|assumption].
-        - intros a. rewrite Hs, Hs'. apply Heq. }
-      f_equal.
-      * apply (Hc t t' TT); auto; try lia; intros a; rewrite sem_node, upd_same;
-          symmetry; apply sem_indep with (S l'); auto.
-      * apply (Hc u u' TU); auto; try lia; intros a; rewrite sem_node, upd_same;
-          symmetry; apply sem_indep with (S l'); auto.
-      * apply (Hc e e' TF); auto; try lia; intros a; rewrite sem_node, upd_same;
-          symmetry; apply sem_indep with (S l'); auto.
-    + exfalso. apply (Hred l' t' u' e' (Node l t u e)); auto; try lia.
-      intros a v. apply sem_indep with l; [|assumption].
-      destruct Of as (_ & Of). simpl. split; [lia|exact Of].
-Qed.
-
-Theorem canon : forall f g,
-  ordered f -> reduced f -> ordered g -> reduced g ->
-  (forall a, sem f a = sem g a) -> f = g.
-Proof. intros f g. apply (canon_aux (height f + height g)). lia. Qed.
-
-Corollary tdd_eqb_iff_sem : forall f g,
-  ordered f -> reduced f -> ordered g -> reduced g ->
-  (tdd_eqb f g = true <-> forall a, sem f a = sem g a).
-Proof.
-  intros f g Of Rf Og Rg. rewrite tdd_eqb_eq. split; [intros ->; reflexivity|].
-  apply canon; assumption.
-Qed.
-
-(* ------------------------------------------------------------------------ *)
-(** * 3. Constants, variables, negation *)
-
-Lemma const_sem : forall a, sem tdd_f a = TF /\ sem tdd_t a = TT /\ sem tdd_u a = TU.
-Proof. intros; repeat split. Qed.
-
-Lemma var_sem : forall l a, sem (tdd_var l) a = a l.
-Proof. intros. unfold tdd_var. rewrite sem_node. destruct (a l); reflexivity. Qed.
-
-Lemma const_var_wf :
-  (forall v, ordered (Leaf v) /\ reduced (Leaf v)) /\
-  (forall l, ordered (tdd_var l) /\ reduced (tdd_var l) /\ below (S l) (tdd_var l)).
-Proof.
-  split; [intros; split; exact I|]. intros l. unfold ordered, tdd_var. simpl.
-  repeat split; try lia. intros [H _]. discriminate.
-Qed.
-
-Lemma apply_not_sem : forall f a, sem (apply_not f) a = k_not (sem f a).
-Proof.
-  induction f as [v|l t IHt u IHu e IHe]; intros a; [reflexivity|].
-  simpl apply_not. rewrite mk_sem, !sem_node, IHt, IHu, IHe. destruct (a l); reflexivity.
-Qed.
-
-Lemma apply_not_ordered : forall f n, ordered_from n f -> ordered_from n (apply_not f).
-Proof.
-  induction f as [v|l t IHt u IHu e IHe]; intros n; [auto|].
-  simpl. intros (H1 & Ht & Hu & He). apply mk_ordered; auto.
-Qed.
-
-Lemma apply_not_reduced : forall f, reduced f -> reduced (apply_not f).
-Proof.
-  induction f as [v|l t IHt u IHu e IHe]; [auto|].
-  simpl. intros (_ & Ht & Hu & He). apply mk_reduced; auto.
-Qed.
-
-Lemma apply_not_below : forall f n, below n f -> below n (apply_not f).
-Proof.
-  induction f as [v|l t IHt u IHu e IHe]; intros n; [auto|].
-  simpl. intros (H1 & Ht & Hu & He). apply mk_below; auto.
-Qed.
-
-(* ------------------------------------------------------------------------ *)
-(** * 4. [terminal_bin] against the fixed tables *)
-
-(** What an [Operation] denotes under assignment [a] (a [Binary] is left to
-    the caller: it denotes the table of its operator on its operands). *)
-Definition op_denotes (o : operation) (a : assignment) : tri :=
-  match o with
-  | Done r => sem r a
-  | ONot x => k_not (sem x a)
-  | Binary o x y => table o (sem x a) (sem y a)
-  end.
-
-Section EdgeOrder.
-Variable gt : tdd -> tdd -> bool.
-Local Arguments sem : simpl never.
-
-(** Every arm of [terminal_bin], for every operator and all operands (diagrams
-    of any shape), denotes the operator's fixed table applied pointwise. *)
-Theorem terminal_bin_sound : forall op f g a,
-  op_denotes (terminal_bin gt op f g) a = table op (sem f a) (sem g a).
-Proof.
-  intros op f g a. unfold terminal_bin.
-  destruct (tdd_eqb f g) eqn:Eq.
-  { apply tdd_eqb_eq in Eq. subst g. rewrite table_idem_cases. destruct op; reflexivity. }
-  destruct f as [[]|lf tf uf ef], g as [[]|lg tg ug eg]; try (simpl in Eq; discriminate);
-  destruct op; unfold norm; try destruct (gt _ _); simpl;
-  repeat match goal with |- context [sem (Node ?l ?t ?u ?e) a] => destruct (sem (Node l t u e) a) end;
-  reflexivity.
-Qed.
-
-(** On terminals [terminal_bin] never asks for an expansion, and its result is
-    the table entry (8 operators x 9 operand pairs, by computation). *)
-Theorem terminal_bin_leaves : forall op x y,
-  match terminal_bin gt op (Leaf x) (Leaf y) with
-  | Done r => r = Leaf (table op x y)
-  | ONot r => apply_not r = Leaf (table op x y)
-  | Binary _ _ _ => False
-  end.
-Proof. intros [] [] []; reflexivity. Qed.
-
-(** A [Binary] answer keeps the operator, keeps the operands up to a swap that
-    only happens for commutative operators (so the pair is a sound cache key),
-    and at least one operand is an inner node. *)
-Theorem terminal_bin_key_sound : forall op f g o x y,
-  terminal_bin gt op f g = Binary o x y ->
-  o = op /\
-  ((x = f /\ y = g) \/ (x = g /\ y = f /\ commutative op = true)) /\
-  (is_terminal f = false \/ is_terminal g = false) /\
-  f <> g.
-Proof.
-  intros op f g o x y. unfold terminal_bin.
-  destruct (tdd_eqb f g) eqn:Eq.
-  { destruct op; discriminate. }
-  apply tdd_eqb_neq in Eq.
-  destruct f as [[]|lf tf uf ef], g as [[]|lg tg ug eg]; try congruence;
-  destruct op; simpl; unfold norm; try destruct (gt _ _); intros [= <- <- <-];
-  repeat split; auto.
-Qed.
-
-(* ------------------------------------------------------------------------ *)
-(** * 5. [apply_bin]: lifting to all diagrams by induction *)
-
-Theorem apply_bin_sem : forall fuel op f g r,
-  apply_bin gt fuel op f g = Some r ->
-  forall a, sem r a = table op (sem f a) (sem g a).
-Proof.
-  induction fuel as [|k IH]; intros op f g r H a; simpl in H;
-    pose proof (terminal_bin_sound op f g a) as Ht;
-    destruct (terminal_bin gt op f g) as [o x y|x|h] eqn:Et;
-    try (injection H as <-; simpl in Ht; rewrite <- Ht; auto using apply_not_sem; fail);
-    try discriminate.
-  destruct (lmin (level f) (level g)) as [lv|]; [|discriminate].
-  destruct (apply_bin gt k op (cof lv TT f) (cof lv TT g)) as [t|] eqn:E1; [|discriminate].
-  destruct (apply_bin gt k op (cof lv TU f) (cof lv TU g)) as [u|] eqn:E2; [|discriminate].
-  destruct (apply_bin gt k op (cof lv TF f) (cof lv TF g)) as [e|] eqn:E3; [|discriminate].
-  injection H as <-. rewrite mk_sem, sem_node.
-  rewrite (sem_cof lv f a), (sem_cof lv g a).
-  destruct (a lv); [apply (IH _ _ _ _ E3)|apply (IH _ _ _ _ E2)|apply (IH _ _ _ _ E1)].
-Qed.
-
-Lemma lmin_some : forall f g,
-  (is_terminal f = false \/ is_terminal g = false) ->
-  exists lv, lmin (level f) (level g) = Some lv /\
-             (level f = Some lv \/ level g = Some lv) /\
-             (forall l, level f = Some l -> lv <= l) /\ (forall l, level g = Some l -> lv <= l).
-Proof.
-  intros [v|l t u e] [w|l' t' u' e'] H; simpl in *.
-  - destruct H; discriminate.
-  - exists l'. repeat split; auto; intros ? [= <-]; lia.
-  - exists l. repeat split; auto; intros ? [= <-]; lia.
-  - exists (Nat.min l l'). repeat split; try (intros ? [= <-]; lia).
-    destruct (Nat.min_spec l l') as [[_ ->]|[_ ->]]; auto.
-Qed.
-
-(** With fuel [height f + height g] the expansion always terminates normally. *)
-Theorem apply_bin_total : forall fuel op f g,
-  height f + height g <= fuel -> exists r, apply_bin gt fuel op f g = Some r.
-Proof.
-  induction fuel as [|k IH]; intros op f g Hh; simpl;
-    destruct (terminal_bin gt op f g) as [o x y|x|h] eqn:Et; eauto;
-    apply terminal_bin_key_sound in Et; destruct Et as (_ & _ & Hn & _);
-    destruct (lmin_some f g Hn) as (lv & Elv & Hl & _); try rewrite Elv.
-  - exfalso. destruct Hl as [Hl|Hl].
-    + destruct f; simpl in *; [discriminate|lia].
-    + destruct g; simpl in *; [discriminate|lia].
-  - assert (forall c, height (cof lv c f) + height (cof lv c g) <= k) as Hc.
-    { intros c. pose proof (cof_height_le lv c f). pose proof (cof_height_le lv c g).
-      destruct Hl as [Hl|Hl]; [pose proof (cof_height_lt lv c f Hl)|pose proof (cof_height_lt lv c g Hl)]; lia. }
-    destruct (IH op _ _ (Hc TT)) as [t ->]. destruct (IH op _ _ (Hc TU)) as [u ->].
-    destruct (IH op _ _ (Hc TF)) as [e ->]. eauto.
-Qed.
-
-Lemma terminal_bin_result_wf : forall (P : tdd -> Prop) op f g,
-  P f -> P g -> (forall v, P (Leaf v)) -> (forall x, P x -> P (apply_not x)) ->
-  match terminal_bin gt op f g with
-  | Done r => P r
-  | ONot x => P (apply_not x)
-  | Binary _ _ _ => True
-  end.
-Proof.
-  intros P op f g Pf Pg Pl Pn. unfold terminal_bin, norm.
-  destruct op; repeat match goal with |- context [if ?c then _ else _] => destruct c end; auto.
-Qed.
-
-Theorem apply_bin_ordered : forall fuel op f g r n,
-  ordered_from n f -> ordered_from n g -> apply_bin gt fuel op f g = Some r -> ordered_from n r.
-Proof.
-  induction fuel as [|k IH]; intros op f g r n Of Og H; simpl in H;
-    pose proof (terminal_bin_result_wf (ordered_from n) op f g Of Og (fun _ => I)
-                  (fun x => apply_not_ordered x n)) as Hwf;
-    destruct (terminal_bin gt op f g) as [o x y|x|h] eqn:Et;
-    try (injection H as <-; exact Hwf); try discriminate.
-  apply terminal_bin_key_sound in Et. destruct Et as (_ & _ & Hn & _).
-  destruct (lmin_some f g Hn) as (lv & Elv & Hl & Hf & Hg). rewrite Elv in H.
-  destruct (apply_bin gt k op (cof lv TT f) (cof lv TT g)) as [t|] eqn:E1; [|discriminate].
-  destruct (apply_bin gt k op (cof lv TU f) (cof lv TU g)) as [u|] eqn:E2; [|discriminate].
-  destruct (apply_bin gt k op (cof lv TF f) (cof lv TF g)) as [e|] eqn:E3; [|discriminate].
-  injection H as <-.
-  assert (n <= lv).
-  { destruct Hl as [Hl|Hl]; [destruct f|destruct g]; simpl in *; try discriminate;
-      injection Hl as ->; lia. }
-  apply mk_ordered; auto;
-    [apply (IH _ _ _ _ _ (cof_ordered lv TT f n Of Hf) (cof_ordered lv TT g n Og Hg) E1)
-    |apply (IH _ _ _ _ _ (cof_ordered lv TU f n Of Hf) (cof_ordered lv TU g n Og Hg) E2)
-    |apply (IH _ _ _ _ _ (cof_ordered lv TF f n Of Hf) (cof_ordered lv TF g n Og Hg) E3)].
-Qed.
-
-Theorem apply_bin_reduced : forall fuel op f g r,
-  reduced f -> reduced g -> apply_bin gt fuel op f g = Some r -> reduced r.
-Proof.
-  induction fuel as [|k IH]; intros op f g r Rf Rg H; simpl in H;
-    pose proof (terminal_bin_result_wf reduced op f g Rf Rg (fun _ => I) apply_not_reduced) as Hwf;
-    destruct (terminal_bin gt op f g) as [o x y|x|h] eqn:Et;
-    try (injection H as <-; exact Hwf); try discriminate.
-  destruct (lmin (level f) (level g)) as [lv|]; [|discriminate].
-  destruct (apply_bin gt k op (cof lv TT f) (cof lv TT g)) as [t|] eqn:E1; [|discriminate].
-  destruct (apply_bin gt k op (cof lv TU f) (cof lv TU g)) as [u|] eqn:E2; [|discriminate].
-  destruct (apply_bin gt k op (cof lv TF f) (cof lv TF g)) as [e|] eqn:E3; [|discriminate].
-  injection H as <-.
-  apply mk_reduced; eauto using cof_reduced.
-Qed.
-
-Lemma lmin_below : forall n f g lv, below n f -> below n g -> lmin (level f) (level g) = Some lv -> lv < n.
-Proof.
-  intros n [v|l t u e] [w|l' t' u' e'] lv; simpl; try discriminate;
-    intros Bf Bg [= <-]; try lia.
-Qed.
-
-Theorem apply_bin_below : forall fuel op f g r n,
-  below n f -> below n g -> apply_bin gt fuel op f g = Some r -> below n r.
-Proof.
-  induction fuel as [|k IH]; intros op f g r n Bf Bg H; simpl in H;
-    pose proof (terminal_bin_result_wf (below n) op f g Bf Bg (fun _ => I)
-                  (fun x => apply_not_below x n)) as Hwf;
-    destruct (terminal_bin gt op f g) as [o x y|x|h] eqn:Et;
-    try (injection H as <-; exact Hwf); try discriminate.
-  destruct (lmin (level f) (level g)) as [lv|] eqn:Elv; [|discriminate].
-  destruct (apply_bin gt k op (cof lv TT f) (cof lv TT g)) as [t|] eqn:E1; [|discriminate].
-  destruct (apply_bin gt k op (cof lv TU f) (cof lv TU g)) as [u|] eqn:E2; [|discriminate].
-  destruct (apply_bin gt k op (cof lv TF f) (cof lv TF g)) as [e|] eqn:E3; [|discriminate].
-  injection H as <-.
-  apply mk_below; eauto using cof_below, lmin_below.
-Qed.
-
-(** Summary for the public entry point ([and_edge] etc. = [apply_bin] from the top). *)
-Theorem apply_bin_auto_correct : forall op f g,
-  exists r, apply_bin_auto gt op f g = Some r /\
-    (forall a, sem r a = table op (sem f a) (sem g a)) /\
-    (forall n, ordered_from n f -> ordered_from n g -> ordered_from n r) /\
-    (reduced f -> reduced g -> reduced r) /\
-    (forall n, below n f -> below n g -> below n r).
-Proof.
-  intros op f g. destruct (apply_bin_total (height f + height g) op f g (le_n _)) as [r Hr].
-  exists r. unfold apply_bin_auto. split; [exact Hr|]. repeat split.
-  - eapply apply_bin_sem; eauto.
-  - intros n Of Og. exact (apply_bin_ordered _ _ _ _ _ _ Of Og Hr).
-  - intros Rf Rg. exact (apply_bin_reduced _ _ _ _ _ Rf Rg Hr).
-  - intros n Bf Bg. exact (apply_bin_below _ _ _ _ _ _ Bf Bg Hr).
-Qed.
-
-(* ------------------------------------------------------------------------ *)
-(** * 6. [apply_ite_rec]: every terminal short-cut against [ite3], then lifting *)
-
-Definition sc_denotes (s : ite_sc) (a : assignment) : option tri :=
-  match s with
-  | SDone r => Some (sem r a)
-  | SBin op x y => Some (table op (sem x a) (sem y a))
-  | SNot x => Some (k_not (sem x a))
-  | SRec => None
-  end.
-
-Lemma ite3_same_branches : forall x y, ite3 x y y = y.
-Proof. intros [] []; reflexivity. Qed.
-Lemma ite3_cond_then : forall x z, ite3 x x z = k_or x z.
-Proof. intros [] []; reflexivity. Qed.
-Lemma ite3_cond_else : forall x y, ite3 x y x = k_and x y.
-Proof. intros [] []; reflexivity. Qed.
-
-(** Each short-cut of [apply_ite_rec] (g == h, f == g -> or, f == h -> and,
-    terminal f, terminal g -> or / imp_strict, terminal h -> imp / and,
-    (F,T) -> not, (T,F) -> f, (U, terminal, terminal) -> U), for operands of
-    any shape, denotes [ite3] applied pointwise. *)
-Theorem ite_shortcut_sound : forall f g h a v,
-  sc_denotes (ite_shortcut f g h) a = Some v -> v = ite3 (sem f a) (sem g a) (sem h a).
-Proof.
-  intros f g h a v. unfold ite_shortcut.
-  destruct (tdd_eqb g h) eqn:Egh.
-  { apply tdd_eqb_eq in Egh. subst h. simpl. intros [= <-]. rewrite ite3_same_branches. reflexivity. }
-  destruct (tdd_eqb f g) eqn:Efg.
-  { apply tdd_eqb_eq in Efg. subst g. simpl. intros [= <-]. rewrite ite3_cond_then. reflexivity. }
-  destruct (tdd_eqb f h) eqn:Efh.
-  { apply tdd_eqb_eq in Efh. subst h. simpl. intros [= <-]. rewrite ite3_cond_else. reflexivity. }
-  destruct f as [[]|lf tf uf ef], g as [[]|lg tg ug eg], h as [[]|lh th uh eh];
-    try (simpl in Egh; discriminate); try (simpl in Efg; discriminate); try (simpl in Efh; discriminate);
-    simpl; try discriminate; intros [= <-];
-    repeat match goal with |- context [sem (Node ?l ?t ?u ?e) a] => destruct (sem (Node l t u e) a) end;
-    reflexivity.
-Qed.
-
-Lemma ite_shortcut_rec_inner : forall f g h,
-  ite_shortcut f g h = SRec ->
-  is_terminal f = false \/ is_terminal g = false \/ is_terminal h = false.
-Proof.
-  intros f g h. unfold ite_shortcut.
-  destruct (tdd_eqb g h); [discriminate|]. destruct (tdd_eqb f g); [discriminate|].
-  destruct (tdd_eqb f h); [discriminate|].
-  destruct f as [[]|lf tf uf ef], g as [[]|lg tg ug eg], h as [[]|lh th uh eh]; simpl; auto; discriminate.
-Qed.
-
-Lemma ite_shortcut_wf : forall (P : tdd -> Prop) f g h,
-  P f -> P g -> P h -> (forall v, P (Leaf v)) ->
-  match ite_shortcut f g h with
-  | SDone r => P r
-  | SBin _ x y => P x /\ P y
-  | SNot x => P x
-  | SRec => True
-  end.
-Proof.
-  intros P f g h Pf Pg Ph Pl. unfold ite_shortcut.
-  destruct (tdd_eqb g h); [assumption|]. destruct (tdd_eqb f g); [auto|].
-  destruct (tdd_eqb f h); [auto|].
-  destruct f as [[]|lf tf uf ef], g as [[]|lg tg ug eg], h as [[]|lh th uh eh]; simpl; auto.
-Qed.
-
-Theorem apply_ite_sem : forall fuel f g h r,
-  apply_ite gt fuel f g h = Some r ->
-  forall a, sem r a = ite3 (sem f a) (sem g a) (sem h a).
-Proof.
-  induction fuel as [|k IH]; intros f g h r H a; simpl in H;
-    pose proof (ite_shortcut_sound f g h a) as Hs;
-    destruct (ite_shortcut f g h) as [r0|op x y|x|] eqn:Es; simpl in Hs;
-    try (injection H as <-; rewrite <- (Hs _ eq_refl); auto using apply_not_sem; fail);
-    try (rewrite <- (Hs _ eq_refl); eapply apply_bin_sem; exact H);
-    try discriminate.
-  destruct (lmin (lmin (level f) (level g)) (level h)) as [lv|]; [|discriminate].
-  destruct (apply_ite gt k (cof lv TT f) (cof lv TT g) (cof lv TT h)) as [t|] eqn:E1; [|discriminate].
-  destruct (apply_ite gt k (cof lv TU f) (cof lv TU g) (cof lv TU h)) as [u|] eqn:E2; [|discriminate].
-  destruct (apply_ite gt k (cof lv TF f) (cof lv TF g) (cof lv TF h)) as [e|] eqn:E3; [|discriminate].
-  injection H as <-. rewrite mk_sem, sem_node.
-  rewrite (sem_cof lv f a), (sem_cof lv g a), (sem_cof lv h a).
-  destruct (a lv); [apply (IH _ _ _ _ E3)|apply (IH _ _ _ _ E2)|apply (IH _ _ _ _ E1)].
-Qed.
-
-Lemma lmin3_some : forall f g h,
-  (is_terminal f = false \/ is_terminal g = false \/ is_terminal h = false) ->
-  exists lv, lmin (lmin (level f) (level g)) (level h) = Some lv /\
-             (level f = Some lv \/ level g = Some lv \/ level h = Some lv) /\
-             (forall l, level f = Some l -> lv <= l) /\ (forall l, level g = Some l -> lv <= l) /\
-             (forall l, level h = Some l -> lv <= l).
-Proof.
-  intros f g h H.
-  assert (Hsel : forall x y, lmin x y = x \/ lmin x y = y).
-  { intros [x|] [y|]; simpl; auto. destruct (Nat.min_spec x y) as [[_ ->]|[_ ->]]; auto. }
-  assert (Hle : forall x y lv l, lmin x y = Some lv -> (x = Some l \/ y = Some l) -> lv <= l).
-  { intros [x|] [y|] lv l; simpl; intros [= <-] [[= <-]|[= <-]]; lia. }
-  destruct (lmin (lmin (level f) (level g)) (level h)) as [lv|] eqn:E.
-  - exists lv. split; [reflexivity|]. split.
-    + destruct (Hsel (lmin (level f) (level g)) (level h)) as [E1|E1]; rewrite E1 in E; auto.
-      destruct (Hsel (level f) (level g)) as [E2|E2]; rewrite E2 in E; auto.
-    + destruct (lmin (level f) (level g)) as [m|] eqn:E2.
-      * assert (lv <= m) by (apply (Hle _ _ _ _ E); auto).
-        repeat split; intros l Hl.
-        -- assert (m <= l) by (apply (Hle _ _ _ _ E2); auto). lia.
-        -- assert (m <= l) by (apply (Hle _ _ _ _ E2); auto). lia.
-        -- apply (Hle _ _ _ _ E); auto.
-      * destruct (level f) eqn:Ef, (level g) eqn:Eg; simpl in E2; try discriminate.
-        repeat split; intros l Hl; try discriminate. apply (Hle _ _ _ _ E); auto.
-  - exfalso. destruct f, g, h; simpl in *; try discriminate.
-    destruct H as [H|[H|H]]; discriminate.
-Qed.
-
-Theorem apply_ite_total : forall fuel f g h,
-  height f + height g + height h <= fuel -> exists r, apply_ite gt fuel f g h = Some r.
-Proof.
-  induction fuel as [|k IH]; intros f g h Hh; simpl;
-    destruct (ite_shortcut f g h) as [r0|op x y|x|] eqn:Es; eauto;
-    try (apply apply_bin_total; apply le_n);
-    apply ite_shortcut_rec_inner in Es;
-    destruct (lmin3_some f g h Es) as (lv & Elv & Hl & _); try rewrite Elv.
-  - exfalso. destruct Hl as [Hl|[Hl|Hl]];
-      [destruct f|destruct g|destruct h]; simpl in *; try discriminate; lia.
-  - assert (forall c, height (cof lv c f) + height (cof lv c g) + height (cof lv c h) <= k) as Hc.
-    { intros c. pose proof (cof_height_le lv c f). pose proof (cof_height_le lv c g).
-      pose proof (cof_height_le lv c h).
-      destruct Hl as [Hl|[Hl|Hl]];
-        [pose proof (cof_height_lt lv c f Hl)|pose proof (cof_height_lt lv c g Hl)
-        |pose proof (cof_height_lt lv c h Hl)]; lia. }
-    destruct (IH _ _ _ (Hc TT)) as [t ->]. destruct (IH _ _ _ (Hc TU)) as [u ->].
-    destruct (IH _ _ _ (Hc TF)) as [e ->]. eauto.
-Qed.
-
-Theorem apply_ite_ordered : forall fuel f g h r n,
-  ordered_from n f -> ordered_from n g -> ordered_from n h ->
-  apply_ite gt fuel f g h = Some r -> ordered_from n r.
-Proof.
-  induction fuel as [|k IH]; intros f g h r n Of Og Oh H; simpl in H;
-    pose proof (ite_shortcut_wf (ordered_from n) f g h Of Og Oh (fun _ => I)) as Hwf;
-    destruct (ite_shortcut f g h) as [r0|op x y|x|] eqn:Es;
-    try (injection H as <-; auto using apply_not_ordered; fail);
-    try (destruct Hwf as [Hx Hy]; exact (apply_bin_ordered _ _ _ _ _ _ Hx Hy H));
-    try discriminate.
-  apply ite_shortcut_rec_inner in Es.
-  destruct (lmin3_some f g h Es) as (lv & Elv & Hl & Hf & Hg & Hh). rewrite Elv in H.
-  destruct (apply_ite gt k (cof lv TT f) (cof lv TT g) (cof lv TT h)) as [t|] eqn:E1; [|discriminate].
-  destruct (apply_ite gt k (cof lv TU f) (cof lv TU g) (cof lv TU h)) as [u|] eqn:E2; [|discriminate].
-  destruct (apply_ite gt k (cof lv TF f) (cof lv TF g) (cof lv TF h)) as [e|] eqn:E3; [|discriminate].
-  injection H as <-.
-  assert (n <= lv).
-  { destruct Hl as [Hl|[Hl|Hl]]; [destruct f|destruct g|destruct h]; simpl in *; try discriminate;
-      injection Hl as ->; lia. }
-  apply mk_ordered; auto;
-    [apply (IH _ _ _ _ _ (cof_ordered lv TT f n Of Hf) (cof_ordered lv TT g n Og Hg)
-              (cof_ordered lv TT h n Oh Hh) E1)
-    |apply (IH _ _ _ _ _ (cof_ordered lv TU f n Of Hf) (cof_ordered lv TU g n Og Hg)
-              (cof_ordered lv TU h n Oh Hh) E2)
-    |apply (IH _ _ _ _ _ (cof_ordered lv TF f n Of Hf) (cof_ordered lv TF g n Og Hg)
-              (cof_ordered lv TF h n Oh Hh) E3)].
-Qed.
-
-Theorem apply_ite_reduced : forall fuel f g h r,
-  reduced f -> reduced g -> reduced h -> apply_ite gt fuel f g h = Some r -> reduced r.
-Proof.
-  induction fuel as [|k IH]; intros f g h r Rf Rg Rh H; simpl in H;
-    pose proof (ite_shortcut_wf reduced f g h Rf Rg Rh (fun _ => I)) as Hwf;
-    destruct (ite_shortcut f g h) as [r0|op x y|x|] eqn:Es;
-    try (injection H as <-; auto using apply_not_reduced; fail);
-    try (destruct Hwf as [Hx Hy]; exact (apply_bin_reduced _ _ _ _ _ Hx Hy H));
-    try discriminate.
-  destruct (lmin (lmin (level f) (level g)) (level h)) as [lv|]; [|discriminate].
-  destruct (apply_ite gt k (cof lv TT f) (cof lv TT g) (cof lv TT h)) as [t|] eqn:E1; [|discriminate].
-  destruct (apply_ite gt k (cof lv TU f) (cof lv TU g) (cof lv TU h)) as [u|] eqn:E2; [|discriminate].
-  destruct (apply_ite gt k (cof lv TF f) (cof lv TF g) (cof lv TF h)) as [e|] eqn:E3; [|discriminate].
-  injection H as <-.
-  apply mk_reduced; eauto using cof_reduced.
-Qed.
-
-Lemma lmin3_below : forall n f g h lv, below n f -> below n g -> below n h ->
-  lmin (lmin (level f) (level g)) (level h) = Some lv -> lv < n.
-Proof.
-  intros n [v|l t u e] [w|l' t' u' e'] [x|l'' t'' u'' e''] lv; simpl; try discriminate;
-    intros Bf Bg Bh [= <-]; try lia.
-Qed.
-
-Theorem apply_ite_below : forall fuel f g h r n,
-  below n f -> below n g -> below n h -> apply_ite gt fuel f g h = Some r -> below n r.
-Proof.
-  induction fuel as [|k IH]; intros f g h r n Bf Bg Bh H; simpl in H;
-    pose proof (ite_shortcut_wf (below n) f g h Bf Bg Bh (fun _ => I)) as Hwf;
-    destruct (ite_shortcut f g h) as [r0|op x y|x|] eqn:Es;
-    try (injection H as <-; auto using apply_not_below; fail);
-    try (destruct Hwf as [Hx Hy]; exact (apply_bin_below _ _ _ _ _ _ Hx Hy H));
-    try discriminate.
-  destruct (lmin (lmin (level f) (level g)) (level h)) as [lv|] eqn:Elv; [|discriminate].
-  destruct (apply_ite gt k (cof lv TT f) (cof lv TT g) (cof lv TT h)) as [t|] eqn:E1; [|discriminate].
-  destruct (apply_ite gt k (cof lv TU f) (cof lv TU g) (cof lv TU h)) as [u|] eqn:E2; [|discriminate].
-  destruct (apply_ite gt k (cof lv TF f) (cof lv TF g) (cof lv TF h)) as [e|] eqn:E3; [|discriminate].
-  injection H as <-.
-  apply mk_below; eauto using cof_below, lmin3_below.
-Qed.
-
-Theorem apply_ite_auto_correct : forall f g h,
-  exists r, apply_ite_auto gt f g h = Some r /\
-    (forall a, sem r a = ite3 (sem f a) (sem g a) (sem h a)) /\
-    (forall n, ordered_from n f -> ordered_from n g -> ordered_from n h -> ordered_from n r) /\
-    (reduced f -> reduced g -> reduced h -> reduced r) /\
-    (forall n, below n f -> below n g -> below n h -> below n r).
-Proof.
-  intros f g h.
-  destruct (apply_ite_total (height f + height g + height h) f g h (le_n _)) as [r Hr].
-  exists r. unfold apply_ite_auto. split; [exact Hr|]. repeat split.
-  - eapply apply_ite_sem; eauto.
-  - intros n Of Og Oh. exact (apply_ite_ordered _ _ _ _ _ _ Of Og Oh Hr).
-  - intros Rf Rg Rh. exact (apply_ite_reduced _ _ _ _ _ Rf Rg Rh Hr).
-  - intros n Bf Bg Bh. exact (apply_ite_below _ _ _ _ _ _ Bf Bg Bh Hr).
-Qed.
-
-(** The default [ite_edge] of the trait computes a different function
-    (witness: if = then = else = ... pointwise U, T, T). *)
-Theorem apply_ite_default_refuted : exists f g h r a,
-  apply_ite_default gt f g h = Some r /\ sem r a <> ite3 (sem f a) (sem g a) (sem h a).
-Proof. exists (Leaf TU), (Leaf TT), (Leaf TT), (Leaf TU), (fun _ => TF). split; [reflexivity|discriminate]. Qed.
-
-End EdgeOrder.
-
-(* ------------------------------------------------------------------------ *)
-(** * 7. [eval] and [cofactors] *)
-
-Lemma choice_of_inj : forall v w, choice_of v = choice_of w -> v = w.
-Proof. intros [] []; simpl; congruence. Qed.
-
-Lemma set_choices_spec : forall args ch d,
-  (forall l, ch l = choice_of (d l)) ->
-  forall l, set_choices args ch l = choice_of (assignment_of args d l).
-Proof.
-  induction args as [|[l0 v0] r IH]; intros ch d H l; simpl; [apply H|].
-  apply IH. intros x. unfold upd. destruct (Nat.eqb x l0); auto.
-Qed.
-
-Lemma eval_inner_sem : forall f ch a,
-  (forall l, ch l = choice_of (a l)) -> eval_inner f ch = sem f a.
-Proof.
-  induction f as [v|l t IHt u IHu e IHe]; intros ch a H; [reflexivity|].
-  simpl. rewrite (H l). destruct (a l); simpl; auto.
-Qed.
-
-(** [eval] follows the true / unknown / false child: it computes [sem] under
-    the assignment denoted by the argument list (last pair wins). *)
-Theorem eval_sem : forall f args, eval f args = sem f (assignment_of args (fun _ => TT)).
-Proof.
-  intros. unfold eval. apply eval_inner_sem. apply set_choices_spec. reflexivity.
-Qed.
-
-Lemma assignment_of_notin : forall args d l, ~ In l (map fst args) -> assignment_of args d l = d l.
-Proof.
-  induction args as [|[l0 v0] r IH]; intros d l H; simpl in *; [reflexivity|].
-  rewrite IH by tauto. apply upd_other. intro; subst; tauto.
-Qed.
-
-Lemma assignment_of_consistent : forall args d a l,
-  (forall x v, In (x, v) args -> v = a x) -> In l (map fst args) -> assignment_of args d l = a l.
-Proof.
-  induction args as [|[l0 v0] r IH]; intros d a l Hc Hin; simpl in *; [tauto|].
-  destruct (in_dec Nat.eq_dec l (map fst r)) as [Hr|Hr].
-  - apply IH; auto.
-  - rewrite assignment_of_notin by assumption. destruct Hin as [->|]; [|tauto].
-    rewrite upd_same. apply Hc. auto.
-Qed.
-
-Lemma sem_ext_below : forall f n a b, below n f -> (forall l, l < n -> a l = b l) -> sem f a = sem f b.
-Proof.
-  induction f as [v|l t IHt u IHu e IHe]; intros n a b Hb H; [reflexivity|].
-  simpl in Hb. destruct Hb as (Hl & Ht & Hu & He). rewrite !sem_node, <- (H l Hl).
-  rewrite (IHt n a b), (IHu n a b), (IHe n a b); auto.
-Qed.
-
-(** Complete assignments (every level of the manager is given, in any order,
-    possibly repeatedly but consistently): [eval] is [sem]. *)
-Theorem eval_complete : forall f n a args,
-  below n f ->
-  (forall x v, In (x, v) args -> v = a x) ->
-  (forall l, l < n -> In l (map fst args)) ->
-  eval f args = sem f a.
-Proof.
-  intros f n a args Hb Hc Hall. rewrite eval_sem. apply sem_ext_below with n; [assumption|].
-  intros l Hl. apply assignment_of_consistent; auto.
-Qed.
-
-Corollary eval_complete_args : forall f n a, below n f -> eval f (complete_args n a) = sem f a.
-Proof.
-  intros f n a Hb. apply eval_complete with n; auto; unfold complete_args.
-  - intros x v Hin. apply in_map_iff in Hin. destruct Hin as (l & [= <- <-] & _). reflexivity.
-  - intros l Hl. rewrite map_map. simpl. rewrite map_id. apply in_seq. lia.
-Qed.
-
-(** [cofactors]: [None] exactly for terminals, otherwise the three children in
-    the order true, unknown, false, and (ordered diagrams) these are the three
-    restrictions of the function w.r.t. the top variable. *)
-Theorem cofactors_spec : forall f,
-  match f with
-  | Leaf _ => cofactors f = None
-  | Node l t u e =>
-    cofactors f = Some (t, u, e) /\
-    (forall n, ordered_from n f ->
-      forall a, sem t a = sem f (upd a l TT) /\ sem u a = sem f (upd a l TU) /\
-                sem e a = sem f (upd a l TF))
-  end.
-Proof.
-  intros [v|l t u e]; [reflexivity|]. split; [reflexivity|].
-  intros n (_ & Ot & Ou & Oe) a. rewrite !sem_node, !upd_same.
-  rewrite (sem_indep t (S l)), (sem_indep u (S l)), (sem_indep e (S l)); auto.
-Qed.
-
-(** The top level of an ordered reduced diagram is the first level its function
-    depends on: it is independent of all levels above ([sem_indep]) and it is
-    not independent of its top level. *)
-Theorem top_level_essential : forall l t u e,
-  ordered (Node l t u e) -> reduced (Node l t u e) ->
-  ~ (forall a v w, sem (Node l t u e) (upd a l v) = sem (Node l t u e) (upd a l w)).
-Proof.
-  intros l t u e (_ & Ot & Ou & Oe) (Hne & Rt & Ru & Re) Hind. apply Hne.
-  assert (forall c, ordered_from (S l) c -> ordered c) as Hord
-    by (intros c Hc; apply ordered_from_mono with (S l); [lia|assumption]).
-  split; apply canon; auto; intros a.
-  - pose proof (Hind a TT TU) as H. rewrite !sem_node, !upd_same in H.
-    rewrite (sem_indep t (S l)), (sem_indep u (S l)) in H; auto.
-  - pose proof (Hind a TU TF) as H. rewrite !sem_node, !upd_same in H.
-    rewrite (sem_indep u (S l)), (sem_indep e (S l)) in H; auto.
-Qed.
-
-(* ------------------------------------------------------------------------ *)
-(** * 8. Every function over finitely many levels has a reduced ordered diagram *)
-
-Fixpoint incr_from (n : nat) (ls : list nat) : Prop :=
-  match ls with
-  | [] => True
-  | l :: r => n <= l /\ incr_from (S l) r
-  end.
-
-Definition fn_ext (fn : tfun) : Prop := forall a b, (forall x, a x = b x) -> fn a = fn b.
-
-Definition override (ls : list nat) (a b : assignment) : assignment :=
-  fun x => if existsb (Nat.eqb x) ls then b x else a x.
-
-Lemma incr_from_notin : forall ls n l, incr_from n ls -> l < n -> existsb (Nat.eqb l) ls = false.
-Proof.
-  induction ls as [|l0 r IH]; intros n l H Hl; [reflexivity|]. simpl in *.
-  destruct H as [H1 H2]. destruct (Nat.eqb_spec l l0); [lia|]. simpl. apply (IH (S l0)); auto. lia.
-Qed.
-
-Lemma tdd_of_fun_wf : forall ls fn a n, incr_from n ls ->
-  ordered_from n (tdd_of_fun ls fn a) /\ reduced (tdd_of_fun ls fn a) /\
-  (forall m, (forall l, In l ls -> l < m) -> below m (tdd_of_fun ls fn a)).
-Proof.
-  induction ls as [|l r IH]; intros fn a n H; simpl; [repeat split; auto|].
-  destruct H as [H1 H2].
-  destruct (IH fn (upd a l TT) _ H2) as (O1 & R1 & B1).
-  destruct (IH fn (upd a l TU) _ H2) as (O2 & R2 & B2).
-  destruct (IH fn (upd a l TF) _ H2) as (O3 & R3 & B3).
-  repeat split.
-  - apply mk_ordered; auto.
-  - apply mk_reduced; auto.
-  - intros m Hm. apply mk_below; auto.
-Qed.
-
-Theorem tdd_of_fun_sem : forall ls fn a b n, fn_ext fn -> incr_from n ls ->
-  sem (tdd_of_fun ls fn a) b = fn (override ls a b).
-Proof.
-  induction ls as [|l r IH]; intros fn a b n Hext H; simpl.
-  - apply Hext. reflexivity.
-  - destruct H as [H1 H2]. rewrite mk_sem, sem_node.
-    assert (forall v, b l = v -> sem (tdd_of_fun r fn (upd a l v)) b = fn (override (l :: r) a b)) as Hv.
-    { intros v Hv. rewrite (IH fn _ b _ Hext H2). apply Hext. intros x. unfold override. simpl.
-      destruct (Nat.eqb_spec x l) as [->|Hne]; simpl.
-      - rewrite (incr_from_notin r (S l) l H2) by lia. rewrite upd_same. auto.
-      - destruct (existsb (Nat.eqb x) r); [reflexivity|]. apply upd_other. assumption. }
-    destruct (b l) eqn:E; apply Hv; reflexivity.
-Qed.
-
-(** Satisfiability of the hypotheses used throughout (a concrete non-trivial
-    ordered, reduced two-level diagram and a complete run of the operators). *)
-Example wf_example :
-  let f := Node 0 (tdd_var 1) (Leaf TU) (Node 1 (Leaf TF) (Leaf TT) (Leaf TT)) in
-  ordered f /\ reduced f /\ below 2 f /\
-  apply_bin_auto gt_size Imp f (tdd_var 1) =
-    Some (Node 0 (Leaf TT) (Node 1 (Leaf TT) (Leaf TT) (Leaf TU)) (Node 1 (Leaf TT) (Leaf TU) (Leaf TF))) /\
-  apply_ite_auto gt_size (tdd_var 0) f (Leaf TU) = Some (Node 0 (tdd_var 1) (Leaf TU) (Leaf TU)).
-Proof.
-  cbv zeta. unfold ordered. simpl ordered_from. simpl reduced. simpl below.
-  repeat split; try lia; try (intros [H1 H2]; discriminate).
-Qed.
-
-(* ------------------------------------------------------------------------ *)
-(** * 9. The bit-packed [choices] vector of [eval_edge] *)
-
-Section Packed.
-Local Open Scope N_scope.
-Arguments N.add : simpl never. Arguments N.sub : simpl never. Arguments N.mul : simpl never.
-Arguments N.div : simpl never. Arguments N.modulo : simpl never. Arguments N.pow : simpl never.
-Arguments N.shiftl : simpl never. Arguments N.shiftr : simpl never. Arguments N.ones : simpl never.
-
-Lemma testbit_small : forall v i, v < 4 -> 2 <= i -> N.testbit v i = false.
-Proof.
-  intros v i Hv Hi. destruct (N.eq_dec v 0) as [->|Hn]; [apply N.bits_0|].
-  apply N.bits_above_log2. apply N.lt_le_trans with 2; [|assumption].
-  apply N.log2_lt_pow2; [lia|]. exact Hv.
-Qed.
-
-Lemma testbit_3 : forall i, N.testbit 3 i = (i <? 2).
-Proof.
-  intros i. change 3 with (N.ones 2). destruct (N.ltb_spec i 2).
-  - apply N.ones_spec_low. assumption.
-  - apply N.ones_spec_high. assumption.
-Qed.
-
-Lemma block_get_set_aux : forall b m m' v, m < 16 -> m' < 16 -> v < 4 ->
-  N.land (N.shiftr (N.lor (N.shiftl v (2 * m))
-                      (N.land b (N.ldiff (N.ones 32) (N.shiftl 3 (2 * m))))) (2 * m')) 3 =
-  if m =? m' then v else N.land (N.shiftr b (2 * m')) 3.
-Proof.
-  intros b m m' v Hm Hm' Hv. apply N.bits_inj. intros i.
-  rewrite N.land_spec, N.shiftr_spec', N.lor_spec, N.land_spec, N.ldiff_spec, testbit_3.
-  destruct (N.ltb_spec i 2) as [Hi|Hi].
-  - rewrite andb_true_r. rewrite (N.ones_spec_low 32 (i + 2 * m')) by lia. rewrite andb_true_l.
-    destruct (N.eqb_spec m m') as [<-|Hne].
-    + rewrite N.shiftl_spec_high' by lia. rewrite N.shiftl_spec_high' by lia.
-      replace (i + 2 * m - 2 * m) with i by lia. rewrite testbit_3.
-      destruct (N.ltb_spec i 2); [|lia]. simpl. rewrite andb_false_r, orb_false_r. reflexivity.
-    + rewrite N.land_spec, N.shiftr_spec', testbit_3. destruct (N.ltb_spec i 2); [|lia]. rewrite andb_true_r.
-      destruct (N.lt_ge_cases (i + 2 * m') (2 * m)) as [Hlt|Hge].
-      * rewrite !N.shiftl_spec_low by assumption. simpl. rewrite andb_true_r. reflexivity.
-      * rewrite !N.shiftl_spec_high' by assumption.
-        rewrite (testbit_small v) by lia. rewrite testbit_3.
-        destruct (N.ltb_spec (i + 2 * m' - 2 * m) 2); [lia|]. simpl. rewrite andb_true_r. reflexivity.
-  - rewrite andb_false_r. destruct (m =? m').
-    + symmetry. apply testbit_small; assumption.
-    + rewrite N.land_spec, testbit_3. destruct (N.ltb_spec i 2); [lia|]. rewrite andb_false_r. reflexivity.
-Qed.
-
-Lemma block_get_set : forall b l l' v, v < 4 ->
-  block_get (block_set b l v) l' =
-  if (l mod elements_per_block =? l' mod elements_per_block) then v else block_get b l'.
-Proof.
-  intros. unfold block_get, block_set, elements_per_block.
-  apply block_get_set_aux; try assumption; apply N.mod_upper_bound; discriminate.
-Qed.
-
-Lemma block_get_0 : forall l, block_get 0 l = 0.
-Proof. intros. unfold block_get. rewrite N.shiftr_0_l. reflexivity. Qed.
-End Packed.
-
-Definition blk (l : nat) : nat := N.to_nat (N.of_nat l / elements_per_block).
-
-Lemma blk_split : forall l l', blk l = blk l' ->
-  (N.of_nat l mod elements_per_block = N.of_nat l' mod elements_per_block)%N -> l = l'.
-Proof.
-  unfold blk, elements_per_block. intros l l' H1 H2.
-  pose proof (N.div_mod (N.of_nat l) 16 ltac:(discriminate)).
-  pose proof (N.div_mod (N.of_nat l') 16 ltac:(discriminate)).
-  assert (N.of_nat l / 16 = N.of_nat l' / 16)%N by lia. lia.
-Qed.
-
-Lemma blk_lt : forall l k, l < 16 * k -> blk l < k.
-Proof.
-  unfold blk, elements_per_block. intros l k H.
-  assert (N.of_nat l / 16 < N.of_nat k)%N; [|lia].
-  apply N.div_lt_upper_bound; [discriminate|lia].
-Qed.
-
-Lemma list_upd_length : forall A (l : list A) i x, length (list_upd l i x) = length l.
-Proof. induction l as [|y r IH]; intros [|i] x; simpl; auto. Qed.
-
-Lemma nth_list_upd : forall A (l : list A) i j x d, i < length l ->
-  nth j (list_upd l i x) d = if Nat.eqb j i then x else nth j l d.
-Proof.
-  induction l as [|y r IH]; intros i j x d Hi; simpl in Hi; [lia|].
-  destruct i as [|i], j as [|j]; simpl; auto. apply IH. lia.
-Qed.
-
-Definition repr (blocks : list N) (ch : nat -> nat) : Prop :=
-  forall l, l < 16 * length blocks -> block_get (nth (blk l) blocks 0%N) (N.of_nat l) = N.of_nat (ch l).
-
-Lemma choice_n_of : forall v, choice_n v = N.of_nat (choice_of v).
-Proof. intros []; reflexivity. Qed.
-
-Lemma pack_choices_repr : forall args blocks ch,
-  repr blocks ch -> (forall l v, In (l, v) args -> l < 16 * length blocks) ->
-  repr (pack_choices args blocks) (set_choices args ch) /\
-  length (pack_choices args blocks) = length blocks.
-Proof.
-  induction args as [|[l0 v0] r IH]; intros blocks ch Hr Hb; simpl; [auto|].
-  fold (blk l0).
-  assert (Hl0 : l0 < 16 * length blocks) by (apply (Hb l0 v0); simpl; auto).
-  pose proof (blk_lt _ _ Hl0) as Hk.
-  set (blocks' := list_upd blocks (blk l0) _).
-  assert (Hlen : length blocks' = length blocks) by apply list_upd_length.
-  destruct (IH blocks' (fun x => if Nat.eqb x l0 then choice_of v0 else ch x)) as [H1 H2].
-  - intros l Hl. rewrite Hlen in Hl. unfold blocks'. rewrite nth_list_upd by assumption.
-    destruct (Nat.eqb_spec (blk l) (blk l0)) as [Hb1|Hb1].
-    + rewrite block_get_set by (destruct v0; reflexivity).
-      destruct (N.eqb_spec (N.of_nat l0 mod elements_per_block) (N.of_nat l mod elements_per_block)) as [Hm|Hm].
-      * rewrite (blk_split l l0) by auto. rewrite Nat.eqb_refl. apply choice_n_of.
-      * destruct (Nat.eqb_spec l l0) as [->|Hne]; [congruence|]. rewrite <- Hb1. apply Hr. assumption.
-    + destruct (Nat.eqb_spec l l0) as [->|Hne]; [congruence|]. apply Hr. assumption.
-  - intros l v Hin. rewrite Hlen. apply (Hb l v). simpl. auto.
-  - split; [exact H1|]. rewrite H2. exact Hlen.
-Qed.
-
-Lemma eval_inner_packed_eq : forall f blocks ch n,
-  repr blocks ch -> n <= 16 * length blocks -> below n f ->
-  eval_inner_packed f blocks = eval_inner f ch.
-Proof.
-  induction f as [v|l t IHt u IHu e IHe]; intros blocks ch n Hr Hn Hb; [reflexivity|].
-  simpl in Hb. destruct Hb as (Hl & Bt & Bu & Be). simpl. fold (blk l).
-  rewrite Hr by lia.
-  rewrite (IHt blocks ch n), (IHu blocks ch n), (IHe blocks ch n) by assumption.
-  destruct (ch l) as [|[|k]]; try reflexivity.
-  destruct (N.of_nat (S (S k))) as [|[p|p|]] eqn:E; try reflexivity; lia.
-Qed.
-
-(** The packed vector computes the same as the abstract one whenever every
-    mentioned level exists (otherwise the code panics on the index). *)
-Theorem eval_packed_eq : forall n f args,
-  below n f -> (forall l v, In (l, v) args -> l < n) -> eval_packed n f args = eval f args.
-Proof.
-  intros n f args Hb Ha. unfold eval_packed, eval.
-  set (k := N.to_nat ((N.of_nat n + 15) / elements_per_block)).
-  assert (Hk : n <= 16 * k).
-  { unfold k, elements_per_block.
-    pose proof (N.div_mod (N.of_nat n + 15) 16 ltac:(discriminate)).
-    pose proof (N.mod_upper_bound (N.of_nat n + 15) 16 ltac:(discriminate)). lia. }
-  destruct (pack_choices_repr args (repeat 0%N k) (fun _ => 0)) as [H1 H2].
-  - intros l Hl. rewrite nth_repeat. apply block_get_0.
-  - intros l v Hin. rewrite repeat_length. specialize (Ha l v Hin). lia.
-  - apply eval_inner_packed_eq with n; auto. rewrite H2, repeat_length. exact Hk.
-Qed.
+(** DD/TddProofs.v — proofs about the model DD/Tdd.v (property C11).
+
+    The development is split into files that compile independently (and in
+    parallel); this file only re-exports them, so that [Require Import
+    DD.TddProofs] gives the same names as before:
+      DD/TddTables.v    1. the fixed tables
+      DD/TddBasic.v     2. basic facts about diagrams, 3. constants, variables, negation
+      DD/TddCanon.v     2. canonicity
+      DD/TddApplyBin.v  4. [terminal_bin] against the tables, 5. [apply_bin]
+      DD/TddApplyIte.v  6. [apply_ite_rec]
+      DD/TddEval.v      7. [eval] and [cofactors], 8. representability ([tdd_of_fun])
+      DD/TddPacked.v    9. the bit-packed [choices] vector of [eval_edge] *)
+From OxiVerif Require Export DD.TddTables DD.TddBasic DD.TddCanon DD.TddApplyBin DD.TddApplyIte
+  DD.TddEval DD.TddPacked.
